@@ -143,7 +143,7 @@ def hygiene(paths: Iterable[pathlib.Path]) -> list[str]:
     return bad
 
 
-def lean_obligations(prop: str, extra_modules: list[str] | None = None) -> dict:
+def lean_obligations(prop: str, extra_modules: list[str] | None = None, recheck: bool = False) -> dict:
     """Regenerate Gen/<prop>.lean, build the property's theorem and bridge modules, audit axioms.
 
     Returns {obligations: [{name, kind, status}], failing: [names], gen: {kernel: status},
@@ -219,8 +219,16 @@ def lean_obligations(prop: str, extra_modules: list[str] | None = None) -> dict:
                 extra = set(axioms[n]) - ALLOWED_AXIOMS
                 if extra:
                     raise ToolFailure(f"{n} depends on non-standard axioms {sorted(extra)}")
+    rechecked = None
+    if recheck and r.returncode == 0:
+        # independent re-check of the compiled .olean files (thorough tier)
+        rc = _run(["lake", "env", "leanchecker"] + [m for _, m, _ in mods], cwd=LEAN, timeout=3600)
+        if rc.returncode != 0:
+            raise ToolFailure("leanchecker rejected the compiled modules: " + (rc.stdout + rc.stderr)[-2000:])
+        rechecked = "leanchecker ok: " + " ".join(m for _, m, _ in mods)
     skipped = [k for k, v in gen_status.items() if v.startswith("skipped")]
     return {
+        "leanchecker": rechecked,
         "obligations": obligations, "failing": failing, "gen": gen_status, "skipped_kernels": skipped,
         "build_log": log[-6000:], "checker_cmd": checker_cmd, "axioms_used": sorted({a for v in axioms.values() for a in v}),
     }
@@ -323,6 +331,7 @@ def write_evidence(ctx: Ctx, lean: dict | None, trusted: list[str], assumptions:
             "obligation_list": obs,
             "translated_kernels": lean["gen"],
             "axioms_used": lean["axioms_used"],
+            "leanchecker": lean.get("leanchecker"),
         })
     if extra:
         cov.update(extra)
